@@ -372,13 +372,19 @@ class Scales(Stream):
     mods = ["Model.Pitch"]
     checker = "check_pitch_lists"
     pair = "Chord.scale_pitches <-> Pitch.chord_scale (with the rotation oracle)"
-    quick, thorough = 700, 700
+    quick, thorough = 760, 760
 
     def gen(self, rng, n):
         for md in MODES:
             for e in range(7):
                 for t in range(12):
                     yield {"chord": {"elem": e, "fig": "", "tdeg": t, "tmode": md, "toct": 0, "coct": 0}}
+        # chords moved by octaves, with and without an explicit tonality (a bare degree such as II.o(1) is read in C major)
+        for e in range(7):
+            for co in (-2, -1, 1, 2):
+                yield {"chord": {"elem": e, "fig": rng.choice(["", "6", "64"]), "tdeg": 0, "tmode": "M", "toct": 0, "coct": co, "ton_none": True}}
+                yield {"chord": {"elem": e, "fig": rng.choice(["", "64", "6"]), "tdeg": rng.randrange(12), "tmode": rng.choice(MODES),
+                                 "toct": rng.choice([-1, 0, 1]), "coct": co}}
 
     def impl(self, case):
         ch = mlang.mk_chord(case["chord"])
